@@ -6,7 +6,7 @@ func vRingInv(rb *Buffer) bool {
 	if rb.size == 0 {
 		return len(rb.buf) == 0 && rb.r == 0 && rb.w == 0 && rb.isEmpty
 	}
-	return len(rb.buf) == rb.size && 0 <= rb.r && rb.r < rb.size && 0 <= rb.w && rb.w < rb.size &&
+	return len(rb.buf) == rb.size && !vReleased(rb.buf) && 0 <= rb.r && rb.r < rb.size && 0 <= rb.w && rb.w < rb.size &&
 		(!rb.isEmpty || (rb.r == 0 && rb.w == 0))
 }
 
